@@ -99,7 +99,9 @@ class TaggedGate(
         )
 
     def __hash__(self) -> int:
-        if isinstance(self.tag, dict):
-            return hash((self.gate, tuple(self.tag.items())))
-
-        return hash((self.gate, self.tag))
+        try:
+            return hash((self.gate, self.tag))
+        except TypeError:
+            # Unhashable tags (dict, list, ...): equal gates still have
+            # equal inner gates, so this stays consistent with __eq__.
+            return hash(self.gate)
